@@ -293,6 +293,11 @@ class Interp:
             if isinstance(cur, set) and isinstance(s.op, ast.BitOr):
                 cur |= set(self.iterate(rhs))
                 return
+            if isinstance(cur, Obj) and isinstance(s.op, ast.Add):
+                m = self.prog.lookup_method(cur.cls, '__iadd__')
+                if m is not None:
+                    self.assign(s.target, self.call_function(m, [rhs], {}, self_val=cur, depth=depth + 1), env, fn, depth)
+                    return
             self.assign(s.target, self.binop(s.op, cur, rhs), env, fn, depth)
         elif isinstance(s, ast.If):
             self.exec_block(s.body if self.truth(self.eval(s.test, env, fn, depth)) else s.orelse, env, fn, depth)
@@ -451,6 +456,9 @@ class Interp:
             return True
         if isinstance(v, tuple):
             return True
+        import re as _re
+        if isinstance(v, (_re.Match, _re.Pattern)):
+            return True
         raise Undecided('truth value')
 
     def iterate(self, v: Any) -> List[Any]:
@@ -531,7 +539,14 @@ class Interp:
             raise Raised('TypeError', 'argument is not a container')
         raise Undecided('membership')
 
+    DUNDER = {ast.Add: '__add__', ast.Sub: '__sub__', ast.Mult: '__mul__', ast.BitOr: '__or__', ast.BitAnd: '__and__'}
+
     def binop(self, op: ast.operator, a: Any, b: Any) -> Any:
+        if isinstance(a, Obj) and type(op) in self.DUNDER:
+            m = self.prog.lookup_method(a.cls, self.DUNDER[type(op)])
+            if m is not None:
+                return self.call_function(m, [b], {}, self_val=a)
+            raise Raised('TypeError', f'unsupported operand for {a.cls.name}')
         sets = (set, frozenset)
         if isinstance(a, sets) and isinstance(b, sets):
             if isinstance(op, ast.BitOr):
@@ -798,6 +813,10 @@ class Interp:
             v = self._class_attr(base.cls, attr, depth)
             if v is not NotImplemented:
                 return v
+            if attr == '__class__':
+                return ClassRef(base.cls)
+            if attr.startswith('__') and attr.endswith('__'):
+                raise Undecided(f'special attribute {attr}')
             raise Raised('AttributeError', f'{base.cls.name}.{attr}')
         if isinstance(base, ClassRef):
             c = base.cls
@@ -808,7 +827,7 @@ class Interp:
                 if getattr(m, 'is_classmethod', False):
                     return FuncRef(m, base)
                 return FuncRef(m, None)
-            if attr == '__name__':
+            if attr in ('__name__', '__qualname__'):
                 return c.name
             v = self._class_attr(c, attr, depth)
             if v is not NotImplemented:
@@ -836,6 +855,9 @@ class Interp:
             return Marker(('ext', f'{base[1]}.{attr}'))
         if isinstance(base, (dict, list, set, frozenset, str, tuple)):
             return Marker(('method', base, attr))
+        import re as _re
+        if isinstance(base, _re.Pattern) and attr in ('match', 'fullmatch', 'search'):
+            return Marker(('ext-bound', base, attr))
         if base is None or isinstance(base, (Atom, int, bool)):
             if isinstance(base, Atom):
                 raise Undecided(f'a name is taken apart (.{attr})')
@@ -910,10 +932,76 @@ class Interp:
         if isinstance(callee, tuple) and callee and callee[0] == 'ext':
             if callee[1] in ('copy.deepcopy', 'copy.copy') and len(args) == 1:
                 return self._copy(args[0], deep=callee[1].endswith('deepcopy'))
-            raise Undecided(f'library call {callee[1]}')
+            return self.library(callee[1], args, kwargs, fn, depth)
+        if isinstance(callee, tuple) and callee and callee[0] == 'ext-bound':
+            if len(args) == 1 and isinstance(args[0], str) and not kwargs:
+                return getattr(callee[1], callee[2])(args[0])
+            if args and isinstance(args[0], Atom):
+                raise Undecided('a name is matched against a pattern')
+            raise Raised('TypeError', 're: expected string')
         if callee is None:
             raise Raised('TypeError', 'None is not callable')
         raise Undecided('call of an unmodelled value')
+
+    def library(self, name: str, args: List[Any], kwargs: Dict[str, Any], fn: FuncInfo, depth: int) -> Any:
+        """Pure standard-library functions on concrete small values."""
+        import re as _re
+        import itertools as _it
+        if name in ('re.match', 're.fullmatch', 're.search') and len(args) == 2 and not kwargs:
+            if isinstance(args[0], str) and isinstance(args[1], str):
+                try:
+                    return getattr(_re, name.split('.')[1])(args[0], args[1])
+                except _re.error:
+                    raise Undecided('invalid regular expression')
+            if isinstance(args[1], Atom):
+                raise Undecided('a name is matched against a pattern')
+            raise Raised('TypeError', 're: expected string')
+        if name == 're.compile' and len(args) == 1 and isinstance(args[0], str):
+            try:
+                return _re.compile(args[0])
+            except _re.error:
+                raise Undecided('invalid regular expression')
+        if name in ('itertools.chain', 'itertools.chain.from_iterable'):
+            parts = args if name == 'itertools.chain' else self.iterate(args[0]) if len(args) == 1 else None
+            if parts is None:
+                raise Undecided(name)
+            out: List[Any] = []
+            for p_ in parts:
+                out.extend(self.iterate(p_))
+            return out
+        if name == 'itertools.product' and not kwargs:
+            return [tuple(t) for t in _it.product(*[self.iterate(a) for a in args])]
+        if name == 'itertools.repeat' and len(args) == 2 and isinstance(args[1], int):
+            return [args[0]] * args[1]
+        if name == 'itertools.islice' and len(args) in (2, 3, 4) and all(isinstance(a, int) or a is None for a in args[1:]):
+            return list(_it.islice(self.iterate(args[0]), *args[1:]))
+        if name == 'itertools.takewhile' and len(args) == 2:
+            out = []
+            for x in self.iterate(args[1]):
+                if not self.truth(self.apply(args[0], [x], {}, None, fn, depth + 1)):
+                    break
+                out.append(x)
+            return out
+        if name == 'itertools.accumulate' and len(args) in (1, 2):
+            items = self.iterate(args[0])
+            out = []
+            acc = None
+            for i, x in enumerate(items):
+                acc = x if i == 0 else (self.apply(args[1], [acc, x], {}, None, fn, depth + 1) if len(args) == 2 else self.binop(ast.Add(), acc, x))
+                out.append(acc)
+            return out
+        if name == 'functools.reduce' and len(args) in (2, 3):
+            items = self.iterate(args[1])
+            if len(args) == 3:
+                acc = args[2]
+            elif items:
+                acc, items = items[0], items[1:]
+            else:
+                raise Raised('TypeError', 'reduce of empty sequence')
+            for x in items:
+                acc = self.apply(args[0], [acc, x], {}, None, fn, depth + 1)
+            return acc
+        raise Undecided(f'library call {name}')
 
     def _copy(self, v: Any, deep: bool) -> Any:
         if isinstance(v, list):
